@@ -33,6 +33,7 @@ import os
 import signal
 import sys
 import warnings
+from types import SimpleNamespace
 
 sys.path.insert(0, os.path.dirname(os.path.abspath(__file__)))
 import _lib  # noqa: E402
@@ -197,14 +198,10 @@ def expand(td, s):
     return td[torch.arange(s * n) % n].clone()
 
 
-class Replay:
-    pass
-
-
 def replay(pol, env, td, actions, forced=False, dec_starts=0, temp=1.0, top_k=0):
     """Own rollout of `actions` [R,T] from reset state(s). dec_starts=0: td has R rows (flat, independent instances);
     dec_starts=K: td has R/K rows and the decoder's own multi-start path is used (PolyNet only)."""
-    r = Replay()
+    r = SimpleNamespace()
     with torch.no_grad():
         td = td.clone()
         hidden, _ = pol.encoder(td)
@@ -348,41 +345,35 @@ def c11_ar(pid, pol, env, td, ms, key, poly=0):
                 fail(f"C11.{pid}.eval.entropy", f"evaluate entropy differs ({info})", inp)
 
 
-def c11_ptr(pid, pol, env, td, key):
+def c11_other(pid, pol, env, td, key, kind):
+    """PointerNetwork (own forward, eval_tours round trip) and MDAM (several decoder paths, no evaluate mode)."""
     for dt in ("greedy", "sampling"):
         rep.case(("C11",) + key + (dt,))
         o = tcall(f"C11.{pid}.gen.raises", small(td, decode_type=dt), pol, td, env, seed=A.seed + 7, decode_type=dt)
         if o is None:
             continue
-        acts, inp = o["actions"], small(td, o["actions"], decode_type=dt)
+        acts, inp, ll = o["actions"], small(td, o["actions"], decode_type=dt), o["log_likelihood"]
+        if kind == "mdam":
+            lp, raw, done = mdam_replay(pol, env, td, acts)
+            if not done.all():
+                fail(f"C11.{pid}.gen.feasible-complete", "returned actions do not complete the episode", inp)
+            elif not close(ll[:, -1], lp.sum(1)):
+                nm = "ll-unnormalised-logits" if close(ll[:, -1], raw.sum(1)) else "ll-equals-step-logp"
+                fail(f"C11.{pid}.gen.{nm}", f"log_likelihood (last path) {ll[:, -1].tolist()} != sum of normalised step log-probs {lp.sum(1).tolist()}", inp)
+            continue
         if not all(sorted(a.tolist()) == list(range(acts.size(1))) for a in acts):
             fail(f"C11.{pid}.gen.feasible-complete", "tour is not a permutation", inp)
             continue
         lp = ptr_replay(pol, td, acts)
-        if not close(o["log_likelihood"], lp.sum(1)):
-            fail(f"C11.{pid}.gen.ll-equals-step-logp", f"log_likelihood {o['log_likelihood'].tolist()} != oracle {lp.sum(1).tolist()}", inp)
-        if dt == "greedy":  # greedy = argmax: no other first/second move may have a higher oracle log-prob than the chosen one
+        if not close(ll, lp.sum(1)):
+            fail(f"C11.{pid}.gen.ll-equals-step-logp", f"log_likelihood {ll.tolist()} != oracle {lp.sum(1).tolist()}", inp)
+        if dt == "greedy":  # no alternative first move (tour rotated by k) may have a higher oracle log-prob than the chosen one
             alt = torch.stack([ptr_replay(pol, td, torch.roll(acts, -k, 1))[:, 0] for k in range(1, acts.size(1))], 1).max(1).values
             if (alt > lp[:, 0] + TIE).any():
                 fail(f"C11.{pid}.gen.greedy-is-argmax", "greedy first move is not the most probable one", inp)
         ev = tcall(f"C11.{pid}.eval.raises", inp, pol, td, env, decode_type=dt, eval_tours=acts)
         if ev is not None and not ((ev["actions"] == acts).all() and close(ev["log_likelihood"], lp.sum(1)) and close(ev["reward"], o["reward"])):
             fail(f"C11.{pid}.eval.steps", "eval_tours pass does not reproduce actions / log_likelihood / reward", inp)
-
-
-def c11_mdam(pid, pol, env, td, key):
-    for dt in ("greedy", "sampling"):
-        rep.case(("C11",) + key + (dt,))
-        o = tcall(f"C11.{pid}.gen.raises", small(td, decode_type=dt), pol, td, env, seed=A.seed + 7, decode_type=dt)
-        if o is None:
-            continue
-        acts, inp, ll = o["actions"], small(td, o["actions"], decode_type=dt), o["log_likelihood"][:, -1]
-        lp, raw, done = mdam_replay(pol, env, td, acts)
-        if not done.all():
-            fail(f"C11.{pid}.gen.feasible-complete", "returned actions do not complete the episode", inp)
-        elif not close(ll, lp.sum(1)):
-            nm = "ll-unnormalised-logits" if close(ll, raw.sum(1)) else "ll-equals-step-logp"
-            fail(f"C11.{pid}.gen.{nm}", f"log_likelihood (last path) {ll.tolist()} != sum of normalised step log-probs {lp.sum(1).tolist()}", inp)
 
 
 def c11_mask_unit(s):
@@ -565,8 +556,7 @@ def main():
                     pol, env = mkpol().eval(), mkenv(n)
                     td = env.reset(batch_size=[B])
                     if "C11" in props:
-                        {"ar": lambda: c11_ar(pid, pol, env, td, ms, key), "poly": lambda: c11_ar(pid, pol, env, td, None, key, poly=3),
-                         "ptr": lambda: c11_ptr(pid, pol, env, td, key), "mdam": lambda: c11_mdam(pid, pol, env, td, key)}[kind]()
+                        c11_ar(pid, pol, env, td, ms, key, poly=3 * (kind == "poly")) if kind in ("ar", "poly") else c11_other(pid, pol, env, td, key, kind)
                     if "C13" in props and beam:
                         c13(pid, pol, env, td, ms, key)
                     if "C14" in props:
